@@ -416,6 +416,14 @@ impl Logger {
     pub fn max_log_level(&self) -> LevelFilter {
         self.0.load().root.max_log_level()
     }
+
+    /// verification hook: a `Handle` for a logger that is not installed globally
+    #[cfg(feature = "verif_hooks")]
+    pub fn verif_handle(&self) -> Handle {
+        Handle {
+            shared: self.0.clone(),
+        }
+    }
 }
 
 impl log::Log for Logger {
